@@ -124,11 +124,29 @@ def c08(ctx, case, io):
         if s is None or s.repo != st["repo"]:
             return None          # unknown here: never created, or belongs to another repository
         return s
+    flat = []
     for k, (st, res) in enumerate(zip(case["steps"], io["steps"])):
+        if st["kind"] == "split":
+            mids = (res.get("par") or [[]])[0]
+            for m, r in zip(st["mids"], mids):
+                flat.append((k, m, r))
+            flat.append((k, dict(st["outer"], interrupted=True), res))
+        else:
+            flat.append((k, st, res))
+    for k, st, res in flat:
         if res.get("panic") or ("status" not in res and st["kind"] not in ("expire", "prunecount", "sesscount", "snapshot", "restart")):
             continue
         kind, status = st["kind"], res.get("status")
         repo = st.get("repo")
+        if st.get("interrupted"):
+            # the session was cancelled / expired while this request's body was arriving: it must not succeed
+            s = find(st)
+            if s is not None and not s.open and 200 <= status < 300:
+                ctx.violation("%s completed with %s although its session was cancelled or expired while the body was arriving"
+                              % (kind, status), hist(case, k, res), "C08:dead-session-completed")
+            if s is not None:
+                s.open = False
+            continue
         if kind == "upost" and status == 202:
             expect = ""
             if not st["digest"] and st["mount"] and gen.dvalid_py(st["mount"]):
